@@ -33,6 +33,7 @@ BAD_TIME = ['abc', '10:05', '1:2:3:4:5', '25:61:61', '10:05:07:99', ' ', '10:05:
             '20:15.5:43', '20.5:15:43', '1.5:2:3', '12:30.25:10', '10.0:05:07', '10:05.:07']
 BAD_DATE = ['abc', '32-OCT-2023', '03-OKT-2023', ' ', '2023/10/03', '03-10-2023']
 BAD_NUM = ['abc', ' ', '1,2', '1.2.3', '0x10']
+GOOD_NUM = ['1.0e+01', '2E0', '5e-1', '+2.5', ' 4.0', '4.0 ', '1e1', '.5', '5.', '007', '1.600000e+01', '0', '0.0', '-3.5', '1E-3', '12345678.9']
 NCH = 3
 
 
@@ -309,6 +310,17 @@ def cases(tier, seed):
                 for cr in ([CREATORS[1]] if g == 'BDWORD' else [CREATORS[2]] if g == 'CYTEK' else [None, CREATORS[1]]):
                     for tc in (None, 'Time'):
                         yield dict(kind='damage', present=present, values={kwd: bad}, creator=cr, timech=tc)
+    # (C0) well-formed numbers in every spelling a floating-point field may have (exponents, signs, surrounding blanks, no leading or
+    # trailing digit): read as that number
+    for kwd in menus:
+        g = group.get(kwd, kwd)
+        for good in GOOD_NUM:
+            for cr in ([CREATORS[1]] if g == 'BDWORD' else [CREATORS[2]] if g == 'CYTEK' else [None]):
+                for tc in ((None, 'Time') if g in ('$TIMESTEP', 'TIMETICKS') else (None,)):
+                    for pres in ([g], list(OPT)):
+                        if g in ('BDWORD', 'CYTEK') and len(pres) > 1:
+                            pres = [k for k in pres if k not in ('PnV', 'PnG')]          # the fall-back keywords count only without the standard ones
+                        yield dict(kind='numformats', present=pres, values={kwd: good}, creator=cr, timech=tc)
     pairs = [('$BTIM', '$ETIM'), ('$BTIM', '$DATE'), ('$TIMESTEP', '$BTIM'), ('$TIMESTEP', 'TIMETICKS'), ('$P2V', '$P2G'),
              ('$DATE', '$ETIM'), ('$TIMESTEP', '$DATE')]
     for a, b in pairs:
@@ -368,14 +380,9 @@ def run_case(c):
                       'loading raised %s: %s; optional keywords in the file: %r' % (type(e).__name__, e, kw), c)
         return res
     bad = []
-    if exp['time_step'] is None and '$TIMESTEP' in kw and 'TIMETICKS' in kw and ref_float(kw['TIMETICKS']) is not None \
-            and d.time_step is not None:
-        # unparseable standard keyword with a parseable legacy keyword: the property does not say whether the
-        # legacy keyword is then used; accept that reading too
-        kw2 = dict(kw)
-        del kw2['$TIMESTEP']
-        exp = metaref(kw2, names, pne, ranges, events)
-        res.notes['unparseable $TIMESTEP, legacy TIMETICKS used'] += 1
+    # (an unparseable $TIMESTEP next to a parseable legacy TIMETICKS: "a ... time ... keyword that is ... unparseable yields an absent
+    # attribute" -- the standard keyword is the one that counts when it is present, so the time step is absent; an earlier version of this
+    # check also accepted a fall-back to the legacy keyword, which the property's wording does not support)
     for attr in ('time_step', 'acquisition_start_time', 'acquisition_end_time', 'channels', 'data_type'):
         got = getattr(d, attr)
         if not eq(got, exp[attr]):
